@@ -30,6 +30,86 @@ CHECKS = {
         "design_ref": "5/C09",
         "technique": "Lean 4 proof (invariant + refinement by induction over event histories) + model/implementation correspondence",
     },
+    "C19": {
+        "engine": "validate",
+        "text": ("Lean theorems over the topology model (coupling forest of outputs, adapters and inputs carrying the class "
+                 "flags of the regenerated table): _validate_composition raises iff one of the property's clauses holds "
+                 "(unconnected input, static input from non-static output, pull-needing element upstream of a push-needing "
+                 "one, fan-out at or below a no-branch adapter, slot of an unlisted component) for forests of any size and "
+                 "any listing order; rejection precedes every exchange; the reported link list is exactly the links of the "
+                 "composition's trees. Tied to schedule.py by a differential correspondence run through real "
+                 "Composition.connect() on random topologies plus an oracle that evaluates the clauses on the case description."),
+        "design_ref": "5/C19",
+        "technique": "Lean 4 proof (mutual structural induction over coupling trees; loop invariant of the dead-link scan) + model/implementation correspondence",
+    },
+    "C14": {
+        "engine": "grid",
+        "text": ("Lean theorems over the structured-grid model (n-dimensional ravel/unravel maps; gen_points, data_axes, "
+                 "data_shape, gen_cells incl. the C-order remapping, cell centres, unstructured cast; the data_shape/data_size "
+                 "memo as a state machine): for every axes list, order, axes_reversed, direction flags and location the "
+                 "coordinate read off data_axes at multi-index i equals data_points[ravel_order(i)]; cells reference existing "
+                 "points; a cell centre is the mean of its nodes; the unstructured cast keeps all of it; for every history of "
+                 "reads, copies, casts and location changes the memoising grid answers like a memo-free specification. Tied to "
+                 "data/grid_base.py, grid_spec.py, grid_tools.py by a differential run over the product of configurations and "
+                 "random operation histories on real grid objects plus an implementation-only oracle."),
+        "design_ref": "5/C14",
+        "technique": "Lean 4 proof (induction over the shape list; div/mod algebra of the cell tables; refinement of the memo state machine) + model/implementation correspondence",
+    },
+    "C15": {
+        "engine": "grid",
+        "text": ("Lean theorems over the canonical-form model (to_canonical/from_canonical as index maps: transpose, per-axis "
+                 "flip, time axis moves; compatible_with; get_transform_to): the two conversions are mutually inverse; canonical "
+                 "element [ix,iy,iz] is the value located at the increasing axes' coordinates; compatible_with holds exactly for "
+                 "equal location kind and equal axes; the transform between compatible layouts, with a leading time axis, "
+                 "delivers every element at the coordinate it had in the source; equal layouts pass through. Tied to "
+                 "data/grid_base.py and sdk/input.py by a differential run over all pairs of layouts (direct and through a real "
+                 "Output>>Input link, plain and masked) plus an oracle that locates every value through data_points."),
+        "design_ref": "5/C15",
+        "technique": "Lean 4 proof (index-map algebra over lists of any rank) + model/implementation correspondence",
+    },
+    "C18": {
+        "engine": "grid",
+        "text": ("Lean theorems over the mask model (to_compressed/from_compressed as flat compress/scatter after a ravel in the "
+                 "requested order; prepare's mask attachment and shape normalisation; masks_compatible/masks_equal/Info.accepts): "
+                 "compress-expand restores every unmasked element at its position and exactly the mask, for any shape, order and "
+                 "mask; prepare under a fixed mask yields exactly that mask (flat payloads in grid order); the acceptance table "
+                 "(flexible accepts any, unmasked only unmasked, fixed only masks equal in canonical position). Tied to "
+                 "data/tools/mask.py, core.py, info.py by a differential run (all shapes up to 3x3x3, both orders, every mask of "
+                 "arrays up to 9 elements in the thorough tier, quantified and plain; mask kinds x layouts through Info.accepts "
+                 "and a real metadata exchange) plus an implementation-only oracle."),
+        "design_ref": "5/C18",
+        "technique": "Lean 4 proof (induction over mask lists and shapes; finite case analysis of the acceptance rules) + model/implementation correspondence",
+    },
+    "C06": {
+        "engine": "connect",
+        "text": ("Lean theorems over the connect model (items per component with provision and delivery conditions; one "
+                 "ConnectHelper.connect call as a fixed sequence of attempts with provision evaluated at call start and the "
+                 "caches; the _connect_components loop; adapter chains during the initial pushes and the initial pull): the "
+                 "loop terminates within #items + 2#components + 1 iterations for every listing order; it succeeds iff the "
+                 "least fixed point of the dependency rules is total (in particular for acyclic dependencies) and otherwise "
+                 "reports exactly the listed components with an item outside the fixed point; CONNECTED iff complete, "
+                 "CONNECTING iff the call exchanged something new; the outcome, exchanged set and reported set do not depend "
+                 "on the order; initial data is published for the composition start and the producer's start; every link "
+                 "(any chain of pass-through, caching and delay adapters, non-negative delays, producer not earlier than the "
+                 "composition) raises no foreign error and the initial pull returns the producer's initial value. Tied to "
+                 "tools/connect_helper.py, schedule.py, sdk/component.py, sdk/output.py, sdk/input.py, adapters/time.py by a "
+                 "differential run of random dependency shapes through real Composition.connect() under several listing orders "
+                 "plus an oracle that recomputes the fixed point from the spec."),
+        "design_ref": "5/C06",
+        "technique": "Lean 4 proof (loop invariant, termination measure, least-fixed-point argument over a conjunctive rule system; induction over adapter chains) + model/implementation correspondence",
+    },
+    "C17": {
+        "engine": "units",
+        "text": ("Lean theorems over the units model (unit = dimension vector, factor, offset; independently written catalogue of "
+                 "69 SI/CF spellings): compatible iff same dimension; equivalent iff 1 converts to 1 (numpy.isclose proved exact on "
+                 "every catalogue pair); conversion composes and round-trips; for every query history the memoised answers of "
+                 "compatible_units/equivalent_units/to_units/prepare/link equal the unmemoised functions (cache invariant by "
+                 "induction); the convert / relabel / refuse branches of prepare, to_units and of a link. Tied to "
+                 "data/tools/units.py, core.py, sdk/input.py by a differential run of query histories over all ordered pairs "
+                 "(answers and final _UNIT_PAIRS_CACHE), with pint validated against the Lean table, plus a pint-only oracle."),
+        "design_ref": "5/C17",
+        "technique": "Lean 4 proof (cache invariant by induction over query histories; field identities; decide over the catalogue table) + model/implementation correspondence",
+    },
 }
 
 PENDING_REASON = "check not built yet in this session (work in progress; see DESIGN.md section 5 for the plan)"
@@ -68,6 +148,14 @@ def main():
         "engines": [
             {"name": "link", "path": "harness/engines", "serves_properties": sorted(k for k, v in CHECKS.items() if v["engine"] == "link"),
              "kind_free_text": "real Output/Input/adapter objects driven event by event, diffed against the Lean driver"},
+            {"name": "validate", "path": "harness/engines", "serves_properties": sorted(k for k, v in CHECKS.items() if v["engine"] == "validate"),
+             "kind_free_text": "random coupling forests built from real slots/adapters/components, run through Composition.connect(), diffed against the Lean driver"},
+            {"name": "grid", "path": "harness/engines", "serves_properties": sorted(k for k, v in CHECKS.items() if v["engine"] == "grid"),
+             "kind_free_text": "real grid objects, mask helpers, Info.accepts and Output>>Input links over enumerated layouts/masks, diffed against the Lean driver"},
+            {"name": "connect", "path": "harness/engines", "serves_properties": sorted(k for k, v in CHECKS.items() if v["engine"] == "connect"),
+             "kind_free_text": "harness components (create_connector/try_connect with rules, staged infos/data, adapter chains) run through real Composition.connect() under several listing orders, diffed against the Lean driver"},
+            {"name": "units", "path": "harness/engines", "serves_properties": sorted(k for k, v in CHECKS.items() if v["engine"] == "units"),
+             "kind_free_text": "query histories over all ordered unit pairs on the real unit helpers and real links, diffed against the Lean driver"},
         ],
         "checks": checks,
         "not_applicable": na,
